@@ -95,11 +95,17 @@ def mk_entry(tag, path, size, ck):
     return new_manifest_entry(tag, path, size, dict(ck))
 
 
-def k_entry_roundtrip(tag: int, size: int, ck: int, c: str):
+PSHAPES = ('p{c}q', '{c}q', 'p{c}', '{c}')
+
+
+def k_entry_roundtrip(tag: int, size: int, ck: int, c: str, shape: int = 0):
     t = TAGS[tag]
     if t == 'DIST' and c == '/':
         return True, False
-    e = mk_entry(t, 'p' + c + 'q', SIZES[sym.pick_index(size, len(SIZES))], CKS[ck])
+    path = PSHAPES[shape].replace('{c}', c)
+    if path[0] == '/':
+        return True, False          # not a valid (relative) entry path
+    e = mk_entry(t, path, SIZES[sym.pick_index(size, len(SIZES))], CKS[ck])
     fields = e.to_list()
     for f in fields:
         if f == '' or f != f.strip() or ' ' in f or '\t' in f or '\n' in f:
@@ -111,7 +117,7 @@ def k_entry_roundtrip(tag: int, size: int, ck: int, c: str):
     return same, c == ' '
 
 
-def k_entry_pre(tag: int, size: int, ck: int, c: str):
+def k_entry_pre(tag: int, size: int, ck: int, c: str, shape: int = 0):
     return len(c) == 1 and 0 <= size < len(SIZES)
 
 
@@ -226,14 +232,19 @@ def conditions(tier):
         for ck in range(len(CKS)):
             if TAGS[t] == 'IGNORE' and ck:
                 continue
-            cs.append(Cond(
-                f'entry_roundtrip_{TAGS[t]}_{ck}',
-                specialise(k_entry_roundtrip, tag=t, ck=ck),
-                specialise(k_entry_pre, tag=t, ck=ck), timeout=600, group='entry',
-                twin=(t == 0),
-                descr=f'{TAGS[t]}.from_list(to_list(e)) == e, fields non-empty and free of '
-                      'blanks', bounds='path "p"+<any code point>+"q"; size in {0,1,2**64,'
-                      f'10**30}}; checksums {sorted(CKS[ck])}'))
+            shapes = (0,) if (ck or (not full and TAGS[t] not in ('AUX', 'DATA'))) \
+                else range(len(PSHAPES))
+            for sh in shapes:
+                cs.append(Cond(
+                    f'entry_roundtrip_{TAGS[t]}_{ck}' + (f'_s{sh}' if sh else ''),
+                    specialise(k_entry_roundtrip, tag=t, ck=ck, shape=sh),
+                    specialise(k_entry_pre, tag=t, ck=ck, shape=sh), timeout=600,
+                    group='entry', twin=(t == 0 and sh == 0),
+                    descr=f'{TAGS[t]}.from_list(to_list(e)) == e, fields non-empty and '
+                          'free of blanks',
+                    bounds=f'path {PSHAPES[sh]!r} with c any code point (free character in '
+                           'the middle, at the start, at the end, alone); size in {0,1,2**64,'
+                           f'10**30}}; checksums {sorted(CKS[ck])}'))
     cs.append(Cond('timestamp_roundtrip', k_timestamp_roundtrip,
                    lambda i: 0 <= i < len(TS), timeout=60, group='entry', twin=False,
                    descr='TIMESTAMP from_list(to_list) for year 1, 9999, epoch, 2017',
